@@ -259,16 +259,22 @@ PROPS["C18"] = dict(
 _my = dict(pkg="ariga.io/atlas/sql/mysql", hdir="mysql")
 _pg = dict(pkg="ariga.io/atlas/sql/postgres", hdir="postgres")
 _lt = dict(pkg="ariga.io/atlas/sql/sqlite", hdir="sqlite")
+_hcl = dict(initallow=["ariga.io/atlas/schemahcl", "github.com/zclconf/go-cty/cty", "github.com/go-openapi/inflect"])
+_c15_hcl = [
+    dict(_my, **_hcl, harness="VerifHarness_C15_mysql_hcl", reach=["roundtrip"]),
+    dict(_pg, **_hcl, harness="VerifHarness_C15_postgres_hcl", reach=["roundtrip", "sql-fallback"]),
+    dict(_lt, **_hcl, harness="VerifHarness_C15_sqlite_hcl", reach=["roundtrip"]),
+]
 PROPS["C15"] = dict(
     _my,
     runs={
-        "quick": [
+        "quick": _c15_hcl + [
             dict(_my, harness="VerifHarness_C15_mysql", reach=["formatted", "format-error"]),
             dict(_my, harness="VerifHarness_C15_mysql_witness", role="witness", key="C15-mysql-enum-quoting"),
             dict(_pg, harness="VerifHarness_C15_postgres", reach=["formatted", "format-error"]),
             dict(_lt, harness="VerifHarness_C15_sqlite", reach=["formatted"]),
         ],
-        "thorough": [
+        "thorough": _c15_hcl + [
             dict(_my, harness="VerifHarness_C15_mysql2", reach=["formatted", "format-error"], cross=False),
             dict(_my, harness="VerifHarness_C15_mysql_witness", role="witness", key="C15-mysql-enum-quoting"),
             dict(_pg, harness="VerifHarness_C15_postgres", reach=["formatted", "format-error"]),
@@ -279,19 +285,28 @@ PROPS["C15"] = dict(
         "quick": "MySQL: every type family of FormatType's switch, sizes/precision/scale/display width as symbolic integers in 0..12 (float precision "
                  "0..30, time precision 0..7), unsigned / has-size / has-precision as symbolic booleans, enum and set with 1..2 values of 1 fully "
                  "symbolic byte; PostgreSQL: 20 families incl. 9 array spellings, same integer ranges (float precision 0..60); SQLite: 35 type names x "
-                 "{no args, (n), (p,s)} x {lower, upper case}",
+                 "{no args, (n), (p,s)} x {lower, upper case}. HCL half (typed-spec level): the same catalogues (PostgreSQL intervals with a "
+                 "precision only on fields that include seconds, MySQL VARBINARY always sized, enum/set values ASCII), each type taken as inspection "
+                 "yields it (ParseType of its formatted text)",
         "thorough": "same with 2-byte enum/set values",
     },
     assumptions=[
         "symbolic integers that reach fmt %d are case-split into their concrete values (so those parameters are enumerated inside each solver-decided class)",
-        "only the FormatType/ParseType fix-point is claimed; the HCL marshal/eval round trip is outside (see not-applicable note in DESIGN.md section 6)",
+        "HCL half: real columnTypeSpec -> TypeRegistry.Convert -> hclType (marshal side) and real type variable / typeFuncSpec(...).Call (cty function "
+        "with parameter checking) -> convertColumnType -> TypeRegistry.Type -> PrintType -> ParseType (eval side), reached through the export shim "
+        "harness/x_schemahcl/zz_verif_export.go overlaid into package schemahcl; the lexical layer between them (hclwrite tokens, hclsyntax parser, "
+        "gohcl decoding of the column block, where extra attributes such as unsigned travel as sibling attributes) is replaced by a 60-line "
+        "name(args) splitter in the harness",
+        "cty, gocty, go-openapi/inflect and math/big are executed from source on concrete parameters; cty.NormalizeString (Unicode NFC) is the identity on ASCII",
     ],
-    outside="MarshalHCL / EvalHCLBytes, schemahcl.TypeRegistry, specutil conversions (reflection over struct tags and cty values: not encodable); "
-            "user-defined / composite / domain types that need a live database; parameter values beyond the ranges",
+    outside="the HCL text layer (hclwrite / hclsyntax / gohcl), specutil conversions of tables, columns, defaults, indexes, keys and attributes "
+            "(reflection over struct tags: not encoded), byte-identical re-marshalling; user-defined / composite / domain types that need a live "
+            "database; parameter values beyond the ranges; non-ASCII enum values",
     claim="For every type of each dialect's catalogue within the parameter ranges, FormatType(ParseType(FormatType(t))) == FormatType(t), the "
-          "formatted type parses to a supported built-in type, and a second round is idempotent. MySQL ENUM/SET values containing quotes, commas "
-          "or backslashes are the listed known finding.",
-    note="Slice of C15 only (type format/parse fix-point). Bounded parameter ranges; structural choice of the type family by forking.",
+          "formatted type parses to a supported built-in type, and a second round is idempotent; and the type written to HCL by the registry and "
+          "evaluated back through the registry means the same type (family, storage class, size, precision, scale, sign, values). MySQL ENUM/SET "
+          "values containing quotes, commas or backslashes are the listed known finding.",
+    note="Type slice of C15 (format/parse fix-point and registry-level HCL round trip). Bounded parameter ranges; structural choice of the type family by forking.",
 )
 
 def _c02_runs(extra):
